@@ -387,8 +387,13 @@ def _gen_nested_svg(draw, cx, depth, hook):
         a["x"] = fmt(x)
     if y is not None:
         a["y"] = fmt(y)
-    w = _size(draw, box, 20, 80) if draw(st.integers(0, 3)) else None
-    h = _size(draw, box, 20, 80) if draw(st.integers(0, 3)) else None
+    # Omitted width/height mean 100 % of the nearest viewport.  picosvg resolves that where the element is
+    # written (documented limitation of resolve_nested_svgs: percentages are not resolved against the
+    # nearest viewport), so the default is only left to chance directly under the root, where definition
+    # and rendering context coincide; anything that may be instanced by <use> elsewhere gets explicit sizes.
+    explicit = depth > 1
+    w = _size(draw, box, 20, 80) if (explicit or draw(st.integers(0, 3))) else None
+    h = _size(draw, box, 20, 80) if (explicit or draw(st.integers(0, 3))) else None
     if w is not None:
         a["width"] = fmt(w)
     if h is not None:
